@@ -313,6 +313,35 @@ def check_decoder_prints(rep, prog, rule="C09.R2.stdout-discipline"):
     decode_side = effects.reachable(graph, roots)
     rep.count("functions a per-file decode may reach (call graph)", len(decode_side))
     rep.floor("decode-side functions", len(decode_side), 60)
+    # nobody re-points the process-wide streams: a decode that fails between "redirect" and "restore" leaves every later
+    # document on the wrong stream (and even a balanced redirection hides what the CLI prints meanwhile)
+    import ast as _ast
+    nredir = 0
+    for m in prog.modules.values():
+        for node in _ast.walk(m.tree):
+            tgt = []
+            if isinstance(node, (_ast.Assign, _ast.AugAssign, _ast.AnnAssign)):
+                tgt = node.targets if isinstance(node, _ast.Assign) else [node.target]
+            elif isinstance(node, (_ast.With, _ast.AsyncWith)):
+                for it in node.items:
+                    c = it.context_expr
+                    if isinstance(c, _ast.Call) and getattr(c.func, "attr", getattr(c.func, "id", "")) in ("redirect_stdout", "redirect_stderr"):
+                        tgt.append(c)
+            elif isinstance(node, _ast.Call) and getattr(node.func, "attr", getattr(node.func, "id", "")) == "setattr" and len(node.args) >= 2 and \
+                    isinstance(node.args[0], _ast.Name) and node.args[0].id == "sys" and isinstance(node.args[1], _ast.Constant) and \
+                    node.args[1].value in ("stdout", "stderr"):
+                tgt.append(node)
+            for t in tgt:
+                special = isinstance(t, _ast.Call) and not isinstance(node, (_ast.Assign, _ast.AugAssign, _ast.AnnAssign))
+                for x in ([t] if special else _ast.walk(t)):
+                    hit = special or (isinstance(x, _ast.Attribute) and x.attr in ("stdout", "stderr", "__stdout__") and
+                                      isinstance(x.value, _ast.Name) and x.value.id == "sys" and isinstance(x.ctx, _ast.Store))
+                    if hit:
+                        nredir += 1
+                        rep.fail(rule, m.name, node, "sys.stdout / sys.stderr is re-pointed (%s:%s): output of the command line goes to the "
+                                 "wrong stream whenever the code between redirection and restoration fails or prints" % (m.rel, node.lineno), node=node)
+                        break
+    rep.count("stream redirections", nredir)
     n = 0
     for cs in effects.call_sites(prog):
         name = cs.name or ""
@@ -357,3 +386,7 @@ def run(rep, prog, thorough):
     # what counts as junk must not depend on the display mode
     from .c08 import check_decode_independent_of_display
     check_decode_independent_of_display(rep, prog, "C09.R1.per-file-barrier")
+    # a truncated / damaged file is only kept out of the report if reading past its end fails: the stream's range checks
+    # (rule shared with C05)
+    from .c05 import check_stream_guards
+    check_stream_guards(rep, prog)
